@@ -704,8 +704,8 @@ int main(int argc, char **argv) {
     }
     char sg[6000]; int o = 0; sg[0] = 0;
     for (int k = 0; k < NSIG && G->sigs[k].sig[0] && o < (int)sizeof sg - 200; k++) o += snprintf(sg + o, sizeof sg - o, "%s\"%s\":%ld", k ? "," : "", G->sigs[k].sig, G->sigs[k].count);
-    out_stats(PROP, "\"family\":\"%s\",\"grid\":\"%s\",\"mmax\":%d,\"nmax\":%d,\"slice\":\"%d/%d\",\"death_cap\":%d,\"units\":%ld,\"units_total\":%ld,\"complete\":%s,"
-              "\"runs\":%ld,\"judged\":%ld,\"skipped\":%ld,\"skipped_class_keeps_dying\":%ld,\"skipped_no_factors\":%ld,\"patterns_outside_hypothesis\":%ld,"
+    out_stats(PROP, "\"family\":\"%s\",\"grid\":\"%s\",\"mmax\":%d,\"nmax\":%d,\"slice\":\"%d/%d\",\"death_cap\":%d,\"matrices\":%ld,\"matrices_total\":%ld,\"complete\":%s,"
+              "\"runs\":%ld,\"judged\":%ld,\"skipped\":%ld,\"skipped_class_keeps_dying\":%ld,\"skipped_no_factors\":%ld,\"matrices_outside_hypothesis\":%ld,"
               "\"violations\":%ld,\"deaths\":%ld,\"aborts\":%ld,\"factorizations\":%ld,\"distinct_outcomes\":%ld,\"signatures\":{%s},\"wall_s\":%.2f",
               family, grid, SW.mmax, SW.nmax, SW.islice, SW.nslice, death_cap, done, mine, complete ? "true" : "false",
               G->runs, G->judged, G->skipped, G->skip_dead_class, G->skip_no_factors, G->units_outside_hyp,
